@@ -81,7 +81,7 @@ theorem sB_env_step (f : Sem) (j : Job) (cl : Cluster) (s s' : Sys) (es : EnvSte
   · cases hs
   rename_i hc
   simp only [Bool.or_eq_true, beq_iff_eq, not_or] at hc
-  cases he : envStep f j s.env es with
+  cases he : envStepP f j s.env es with
   | none => simp [he] at hs
   | some e =>
     simp only [he, Option.map_some, Option.some.injEq] at hs
